@@ -12,6 +12,7 @@ __all__ = ['Selector']
 
 import contextlib
 import dataclasses
+import re
 import xml.dom
 
 import cssutils
@@ -45,6 +46,23 @@ class Constants:
     expression = expressionstart + ' )'
 
     combinator = ' combinator'
+
+
+# a backslash may be dropped only before a character that may stand unescaped anywhere
+# in an identifier (and is not a hex digit): `\h` is `h`, but `\.` or `\(` must stay escaped
+_escape = re.compile(r'\\(.)', re.DOTALL).sub
+_unneeded_escape = re.compile(r'[g-zG-Z_\u0080-\U0010ffff]').match
+
+
+def _normalize_name(value):
+    "lower-cased `value` without unneeded backslashes (for pseudo names)"
+
+    def unescape(matchobj):
+        if _unneeded_escape(matchobj.group(1)):
+            return matchobj.group(1)
+        return matchobj.group(0)
+
+    return _escape(unescape, value).lower()
 
 
 @dataclasses.dataclass
@@ -214,7 +232,7 @@ class New(cssutils.util._BaseClass):
         """
         context = self.context[-1]
         val, typ = (
-            self.selector._tokenvalue(token, normalize=True),
+            _normalize_name(self.selector._tokenvalue(token)),
             self.selector._type(token),
         )
         if 'pseudo' in expected:
@@ -450,7 +468,7 @@ class New(cssutils.util._BaseClass):
 
     def _negation(self, expected, seq, token, tokenizer=None):
         # not(
-        val = self.selector._tokenvalue(token, normalize=True)
+        val = _normalize_name(self.selector._tokenvalue(token))
         if 'negation' in expected:
             self.context.append('negation')
             self.append(seq, val, 'negation-start', token=token)
